@@ -95,6 +95,25 @@ def item_duration(call, i):
     return 0
 
 
+class _IntSeq:
+    """A user-defined sequence: len + integer __getitem__ only (no slices, no __iter__)."""
+
+    def __init__(self, items):
+        self._items = list(items)
+
+    def __len__(self):
+        return len(self._items)
+
+    def __getitem__(self, i):
+        if not isinstance(i, int):
+            raise TypeError("integer index only")
+        return self._items[i]
+
+
+import collections.abc  # noqa: E402
+collections.abc.Sequence.register(_IntSeq)
+
+
 def make_input(call, ci, sh):
     n = call["n"]
     size = call.get("result_size", 0)
@@ -104,6 +123,13 @@ def make_input(call, ci, sh):
         return items
     if form == "tuple":
         return tuple(items)
+    if form == "range_like":
+        return dict.fromkeys(items).keys()       # a sized, re-iterable view that is no Sequence
+    if form == "deque":
+        import collections
+        return collections.deque(items)         # a Sequence that cannot be sliced
+    if form == "intseq":
+        return _IntSeq(items)
     if form == "gen":
         return (x for x in items)
     if form == "iter":
@@ -489,8 +515,17 @@ def drive_fmap(case, sh, state):
                 rec["traceback"] = traceback.format_exc()[-1500:]
                 break
             sh.log("call_end", call=ci)
+            if call.get("pause_after"):
+                sh.log("idle", seconds=call["pause_after"])
+                _idle(sh, call["pause_after"])
         state["phase"] = "pool_exit"
     sh.log("pool_exit_return")
+
+
+def _idle(sh, seconds):
+    """The caller does something else for a while: nothing of the library runs. Counted as a pending delay so that the
+    watchdog does not take the pause for a hang."""
+    sh.nap(seconds)
 
 
 def drive_mulpmap(case, sh, state):
